@@ -6,6 +6,12 @@ Driver for C16: `lvdriver_c16 run` (model outputs) / `lvdriver_c16 judge` (Spec 
 op     : `txn ex=<pct(JSON array of strings)> req=<pct(text)> resp=<pct(text)>`  one transaction through the
          flow-mode collector (request body then response body, one obfuscator);
          answer `req=<o> resp=<o>` with `<o>` = `ok:<pct(compact JSON)>` | `whole` | `empty` | `other`
+op     : `pol n=<k> f0=<e|g><0|1><0|1> q0=<pct ex> s0=<pct ex> f1=… req=<pct text> resp=<pct text>`  one transaction in
+         policy mode (`runner.RunTask`) with k HAR-exporter diagnoses: scope (endpoint / global), diagnosis
+         enabled, obfuscation enabled, request_body_paths, response_body_paths;
+         answer `n=<m> r0.req=<o> r0.resp=<o> r1.req=…` one record per export, `<o>` as for `txn` or `clear`
+         (`txn` and `pol` may carry `gzreq= gzresp= padreq= padresp=`: the harness sends the body gzip-encoded /
+         preceded by that many spaces — transfer details the model does not see)
 op     : `multi mode=<nest|conc> k=<n> n=<count> e0=<pct ex> d0=<pct text> e1=… d1=…`  `count` overlapping
          `ObfuscateJSON` calls: `nest` = call i+1 runs from inside the hasher of call i at its k-th hashed
          value (after it when there are fewer), `conc` = concurrent goroutines on one P;
@@ -165,29 +171,35 @@ def fmtOutcome : Outcome → String
   | .parseError => "err:parse"
   | .whole => "whole"
   | .empty => "empty"
+  | .clear => "clear"
   | .other => "other"
 
 structure TxnOp where
   ex : List Str
   reqText : String
   respText : String
+  padReq : Nat := 0     -- leading spaces the harness sends before the body (an all-space body is not empty)
+  padResp : Nat := 0
 
 def parseTxn (ws : List String) : Option TxnOp := do
   let ex ← (kv ws "ex").bind (fun s => parseEx (pctDec s))
   let rq ← (kv ws "req").map pctDec
   let rs ← (kv ws "resp").map pctDec
-  pure ⟨ex, rq, rs⟩
+  pure ⟨ex, rq, rs, (kvNat ws "padreq").getD 0, (kvNat ws "padresp").getD 0⟩
 
-def inputOf (text : String) : Input :=
+def inputOfPad (text : String) (pad : Nat) : Input :=
   match parseJson text with
   | some d => .json d
-  | none => .notJson text.isEmpty
+  | none => .notJson (text.isEmpty && pad == 0)
+
+def inputOf (text : String) : Input := inputOfPad text 0
 
 def fmtTok : Outcome → String
   | .doc out => "ok:" ++ pctEnc (printJson out)
   | .parseError => "err:parse"
   | .whole => "whole"
   | .empty => "empty"
+  | .clear => "clear"
   | .other => "other"
 
 def parseTok (t : String) : Outcome :=
@@ -197,11 +209,12 @@ def parseTok (t : String) : Outcome :=
     | none => .other
   else if t == "whole" then .whole
   else if t == "empty" then .empty
+  else if t == "clear" then .clear
   else if t == "err:parse" then .parseError
   else .other
 
 def answerTxn (t : TxnOp) : String :=
-  let (a, b) := runTxn Hm t.ex (inputOf t.reqText) (inputOf t.respText)
+  let (a, b) := runTxn Hm t.ex (inputOfPad t.reqText t.padReq) (inputOfPad t.respText t.padResp)
   "req=" ++ fmtTok a ++ " resp=" ++ fmtTok b
 
 def parseMulti (ws : List String) : Option (List (List Str × String)) := do
@@ -216,6 +229,36 @@ def multiCalls (cs : List (List Str × String)) : List (List Str × Input) := cs
 def answerMulti (cs : List (List Str × String)) : String :=
   let outs := runMany Hm (multiCalls cs)
   " ".intercalate ((List.range outs.length).zip outs |>.map fun (i, o) => s!"o{i}=" ++ fmtTok o)
+
+structure PolOp where
+  diags : List Diag
+  reqText : String
+  respText : String
+
+def parseDiag (ws : List String) (i : Nat) : Option Diag := do
+  let f ← kv ws s!"f{i}"
+  let q ← (kv ws s!"q{i}").bind (fun s => parseEx (pctDec s))
+  let r ← (kv ws s!"s{i}").bind (fun s => parseEx (pctDec s))
+  match f.toList with
+  | [sc, en, ob] =>
+    if (sc == 'e' || sc == 'g') && (en == '0' || en == '1') && (ob == '0' || ob == '1') then
+      some ⟨sc == 'e', en == '1', ob == '1', q, r⟩
+    else none
+  | _ => none
+
+def parsePol (ws : List String) : Option PolOp := do
+  let n ← kvNat ws "n"
+  let ds ← (List.range n).mapM (parseDiag ws)
+  let rq ← (kv ws "req").map pctDec
+  let rs ← (kv ws "resp").map pctDec
+  pure ⟨ds, rq, rs⟩
+
+def fmtRecords (rs : List (Outcome × Outcome)) : String :=
+  " ".intercalate (s!"n={rs.length}" :: ((List.range rs.length).zip rs).map fun (i, a, b) =>
+    s!"r{i}.req=" ++ fmtTok a ++ s!" r{i}.resp=" ++ fmtTok b)
+
+def answerPol (p : PolOp) : String :=
+  fmtRecords (runPolicy Hm p.diags (inputOf p.reqText) (inputOf p.respText))
 
 def answer (o : Op) : String := fmtOutcome (run Hm o.side o.ex (input o))
 
@@ -233,6 +276,10 @@ def runStep (_ : Unit) (line : String) : Unit × String :=
   | "multi" :: ws =>
     match parseMulti ws with
     | some cs => ((), answerMulti cs)
+    | none => ((), "bad-op")
+  | "pol" :: ws =>
+    match parsePol ws with
+    | some p => ((), answerPol p)
     | none => ((), "bad-op")
   | _ => ((), "bad-op")
 
@@ -273,9 +320,9 @@ def judgeTxn (t : TxnOp) (out : String) : Option String :=
   let ws := words out
   let a := ((kv ws "req").map parseTok).getD .other
   let b := ((kv ws "resp").map parseTok).getD .other
-  if holdsTxn Hm t.ex (inputOf t.reqText) (inputOf t.respText) (a, b) then none
+  if holdsTxn Hm t.ex (inputOfPad t.reqText t.padReq) (inputOfPad t.respText t.padResp) (a, b) then none
   else
-    let bad := if holdsOutcome Hm .req t.ex (inputOf t.reqText) a then "response" else "request"
+    let bad := if holdsOutcome Hm .req t.ex (inputOfPad t.reqText t.padReq) a then "response" else "request"
     some ("- spec-violated-in-transaction body=" ++ bad ++ " ex=" ++ pctEnc (printJson (.arr (t.ex.map fun e => .str (lexEsc e))))
       ++ " req=" ++ pctEnc (short t.reqText) ++ " resp=" ++ pctEnc (short t.respText) ++ " answer=" ++ pctEnc (short out))
 
@@ -288,6 +335,17 @@ def judgeMulti (cs : List (List Str × String)) (out : String) : Option String :
     let bad := ((List.range cs.length).zip ((multiCalls cs).zip outs)).find? fun (_, c, o) => !(holdsOutcome Hm .raw c.1 c.2 o)
     let which := match bad with | some (i, _, _) => toString i | none => "?"
     some ("- spec-violated-in-overlapping-calls call=" ++ which ++ " answer=" ++ pctEnc (short out))
+
+/-- policy mode: one record per enabled diagnosis, each under its own settings (`Spec.holdsPolicy`) -/
+def judgePol (p : PolOp) (out : String) : Option String :=
+  let ws := words out
+  let m := (kvNat ws "n").getD 0
+  let recs := (List.range m).map fun i =>
+    (((kv ws s!"r{i}.req").map parseTok).getD .other, ((kv ws s!"r{i}.resp").map parseTok).getD .other)
+  if (kvNat ws "n").isSome && holdsPolicy Hm p.diags (inputOf p.reqText) (inputOf p.respText) recs then none
+  else some ("- spec-violated-in-policy-mode diagnoses=" ++
+    " ".intercalate (p.diags.map fun d => (if d.endpoint then "e" else "g") ++ (if d.enabled then "1" else "0") ++ (if d.obfuscate then "1" else "0"))
+      |>.replace " " "," |> fun t => t ++ " answer=" ++ pctEnc (short out))
 
 def record (s : JudgeSt) (r : Option String) : JudgeSt :=
   match r with
@@ -305,6 +363,10 @@ def judgeStep (s : JudgeSt) (op out : String) : JudgeSt :=
   | "multi" :: ws =>
     match parseMulti ws with
     | some cs => record s (judgeMulti cs out)
+    | none => s
+  | "pol" :: ws =>
+    match parsePol ws with
+    | some p => record s (judgePol p out)
     | none => s
   | "obf" :: ws =>
     match parseOp ws with
